@@ -63,8 +63,10 @@ META = dict(
     outside=['the limits erf(+-inf) = +-1, the Gaussian and Moffat integral '
              'formulas (trusted mathematics linking the proved algebraic '
              'statements to "integrates to flux")',
-             'GaussianPRF at non-zero rotation; the Airy disk away from the '
-             'lattice (Bessel function)',
+             'block sums of GaussianPRF at non-zero rotation (rotated pixel '
+             'footprints do not tile the plane; per-pixel factorisation, '
+             'sign, symmetry and linearity are decided for every angle); the '
+             'Airy disk away from the lattice (Bessel function)',
              'spline values between sample points'],
     min_obligations=40,
 )
